@@ -603,4 +603,154 @@ theorem scimTr_meaning_aux (fold : Nat → Nat) (env : Env) (self : Val) (uuidA 
     | error err => simp [he] at h
     | ok r => obtain ⟨nd, ne⟩ := r; simp [he] at h
 
+/-! ### unsupported operations are rejected -/
+
+theorem ldapTrList_rejects (env : Env) :
+    ∀ (l : List LF), (∀ f ∈ l, f.hasUnsupported = true → ∀ d n, ∃ e, ldapTr env d n f = .error e) →
+      LF.hasUnsupportedAny l = true → ∀ d n, ∃ e, ldapTrList env d n l = .error e := by
+  intro l
+  induction l with
+  | nil => intro _ h; simp [LF.hasUnsupportedAny] at h
+  | cons x xs ihx =>
+    intro ih h d n
+    unfold ldapTrList
+    cases h1 : ldapTr env d n x with
+    | error err => exact ⟨err, rfl⟩
+    | ok r =>
+      obtain ⟨g, ne⟩ := r
+      simp only [LF.hasUnsupportedAny, Bool.or_eq_true] at h
+      rcases h with h | h
+      · obtain ⟨e', he'⟩ := ih x (by simp) h d n
+        rw [he'] at h1; cases h1
+      · obtain ⟨e', he'⟩ := ihx (fun f hf => ih f (by simp [hf])) h d ne
+        exact ⟨e', by simp [he']⟩
+
+theorem ldapTr_rejects (env : Env) :
+    ∀ lf : LF, lf.hasUnsupported = true → ∀ d n, ∃ e, ldapTr env d n lf = .error e := by
+  intro lf
+  induction lf using LF.ind with
+  | hand l ih =>
+    intro h d n
+    unfold ldapTr
+    cases he : enter d n with
+    | error err => exact ⟨err, rfl⟩
+    | ok r =>
+      obtain ⟨nd, ne⟩ := r
+      obtain ⟨e', he'⟩ := ldapTrList_rejects env l ih (by simpa [LF.hasUnsupported] using h) nd ne
+      exact ⟨e', by simp [ldapAndArm, he']⟩
+  | hor l ih =>
+    intro h d n
+    unfold ldapTr
+    cases he : enter d n with
+    | error err => exact ⟨err, rfl⟩
+    | ok r =>
+      obtain ⟨nd, ne⟩ := r
+      obtain ⟨e', he'⟩ := ldapTrList_rejects env l ih (by simpa [LF.hasUnsupported] using h) nd ne
+      exact ⟨e', by simp [ldapOrArm, he']⟩
+  | hnot f ih =>
+    intro h d n
+    unfold ldapTr
+    cases he : enter d n with
+    | error err => exact ⟨err, rfl⟩
+    | ok r =>
+      obtain ⟨nd, ne⟩ := r
+      obtain ⟨e', he'⟩ := ih (by simpa [LF.hasUnsupported] using h) nd ne
+      exact ⟨e', by simp [ldapNotArm, he']⟩
+  | heq a v => intro h; simp [LF.hasUnsupported] at h
+  | hsub a i any f => intro h; simp [LF.hasUnsupported] at h
+  | hge a v =>
+    intro _ d n
+    unfold ldapTr
+    cases he : enter d n with
+    | error err => exact ⟨err, rfl⟩
+    | ok r => obtain ⟨nd, ne⟩ := r; exact ⟨.filterGeneration, by simp [ldapGeArm, avTr]⟩
+  | hle a v =>
+    intro _ d n
+    unfold ldapTr
+    cases he : enter d n with
+    | error err => exact ⟨err, rfl⟩
+    | ok r => obtain ⟨nd, ne⟩ := r; exact ⟨.filterGeneration, by simp [ldapLeArm, avTr]⟩
+  | hpres a => intro h; simp [LF.hasUnsupported] at h
+  | happrox a v =>
+    intro _ d n
+    unfold ldapTr
+    cases he : enter d n with
+    | error err => exact ⟨err, rfl⟩
+    | ok r => obtain ⟨nd, ne⟩ := r; exact ⟨.filterGeneration, by simp [ldapApproxArm, avTr]⟩
+  | hext =>
+    intro _ d n
+    unfold ldapTr
+    cases he : enter d n with
+    | error err => exact ⟨err, rfl⟩
+    | ok r => obtain ⟨nd, ne⟩ := r; exact ⟨.filterGeneration, rfl⟩
+
+/-- the common shape of the three SCIM rejection results: a property of attribute-operator nodes
+that forces their rejection propagates to every filter containing such a node -/
+theorem scimTr_rejects_of (env : Env) (bad : SF → Bool)
+    (hcmp : ∀ op a sub v, bad (.cmp op a sub v) = true → ∀ d n, ∃ e, scimTr env d n (.cmp op a sub v) = .error e)
+    (hnot : ∀ f, bad (.not f) = bad f)
+    (hor : ∀ l r, bad (.or l r) = (bad l || bad r))
+    (hand : ∀ l r, bad (.and l r) = (bad l || bad r))
+    (hcomplex : bad .complex = true → ∀ d n, ∃ e, scimTr env d n .complex = .error e) :
+    ∀ sf : SF, bad sf = true → ∀ d n, ∃ e, scimTr env d n sf = .error e := by
+  intro sf
+  induction sf with
+  | cmp op a sub v => exact hcmp op a sub v
+  | not f ih =>
+    intro h d n
+    rw [hnot] at h
+    unfold scimTr
+    cases he : enter d n with
+    | error err => exact ⟨err, rfl⟩
+    | ok r =>
+      obtain ⟨nd, ne⟩ := r
+      obtain ⟨e', he'⟩ := ih h nd ne
+      exact ⟨e', by simp [he']⟩
+  | or l r ihl ihr =>
+    intro h d n
+    rw [hor, Bool.or_eq_true] at h
+    unfold scimTr
+    cases he : enter d n with
+    | error err => exact ⟨err, rfl⟩
+    | ok r0 =>
+      obtain ⟨nd, ne⟩ := r0
+      cases h1 : scimTr env nd ne l with
+      | error err => exact ⟨err, by simp [h1]⟩
+      | ok r1 =>
+        obtain ⟨gl, ne1⟩ := r1
+        rcases h with h | h
+        · obtain ⟨e', he'⟩ := ihl h nd ne; rw [he'] at h1; cases h1
+        · obtain ⟨e', he'⟩ := ihr h nd ne1
+          exact ⟨e', by simp [h1, he']⟩
+  | and l r ihl ihr =>
+    intro h d n
+    rw [hand, Bool.or_eq_true] at h
+    unfold scimTr
+    cases he : enter d n with
+    | error err => exact ⟨err, rfl⟩
+    | ok r0 =>
+      obtain ⟨nd, ne⟩ := r0
+      cases h1 : scimTr env nd ne l with
+      | error err => exact ⟨err, by simp [h1]⟩
+      | ok r1 =>
+        obtain ⟨gl, ne1⟩ := r1
+        rcases h with h | h
+        · obtain ⟨e', he'⟩ := ihl h nd ne; rw [he'] at h1; cases h1
+        · obtain ⟨e', he'⟩ := ihr h nd ne1
+          exact ⟨e', by simp [h1, he']⟩
+  | complex => exact hcomplex
+
+theorem scimTr_complex_rejects (env : Env) (d n : Nat) : ∃ e, scimTr env d n .complex = .error e := by
+  unfold scimTr
+  cases he : enter d n with
+  | error err => exact ⟨err, rfl⟩
+  | ok r => obtain ⟨nd, ne⟩ := r; exact ⟨.filterGeneration, rfl⟩
+
+theorem orderable_not_resolvable (s : Nat) (h : orderableSyn.contains s = true) :
+    scimResolvableSyn.contains s = false := by
+  simp only [orderableSyn, List.contains_cons, List.contains_nil, Bool.or_false, Bool.or_eq_true,
+    beq_iff_eq] at h
+  rcases h with rfl | rfl | rfl | rfl <;> decide
+
+
 end Kanidm.ProtoFilter
